@@ -139,3 +139,12 @@ claim('C16',
       'symbolic contents and a symbolic pixel shift in -2..2: no overlap, loss or move other than the shift, zero padding.',
       'FITS I/O, glob and os.path.exists are stubs; the survey is 2 plates x 2 MJDs x 3 fibres with 4 and 6 pixels; the solver enumerates '
       'request selectors (path feasibility) and decides equality of provenance terms; align=True and znum are not covered.', 'DESIGN.md 4/C16')
+claim('C15',
+      'SMALL PART. Only the HMF update steps are claimed: HMF.astep and HMF.gstep are executed with the spectra matrix symbolic (N<=3, M<=4, '
+      'K<=2 quick; up to 4x6, K=3 thorough) on concrete exact-rational other factor and inverse variances (with zero weights), epsilon in '
+      '{None, 0, 1/2}: for EVERY spectra matrix the gradient of chi-square (plus the smoothness penalty with neighbouring columns held) '
+      'with respect to the updated factor vanishes, i.e. each update is the exact weighted least-squares optimum given the other factor; '
+      'astepnn/gstepnn keep both factors >= 0 for every non-negative spectra matrix; normbase returns r with r^2 = mean(g^2) (unit rms).',
+      'NOT claimed (deciding computation is LAPACK/C behind FFI, no encoding within reach; with concrete matrices the claim would degenerate '
+      'to a unit test): computechi2 (numpy.linalg.svd), pcomp and HMF.reorder (eigh), pca_solve, k-means seeding / seed determinism, '
+      '"caller\'s arrays not modified". numpy.linalg.solve is an exact-rational contract stub.', 'DESIGN.md 4/C15')
